@@ -51,7 +51,7 @@ Monotone(n, rank, val, fl, eps) ==
    \A i, j \in 1..n : (Finite(fl, i) /\ Finite(fl, j) /\ rank[i] > rank[j]) => val[i] <= val[j] + eps
 TieEqual(n, rank, val, fl, eps) ==
    \A i, j \in 1..n : (Finite(fl, i) /\ Finite(fl, j) /\ rank[i] = rank[j]) => Abs(val[i] - val[j]) <= eps
-IsPerm(n, perm) == Len(perm) = n /\ \A i \in 1..n : perm[i] \in 1..n /\ \A j \in 1..n : perm[j] = perm[i] => j = i
+IsPerm(n, perm) == Len(perm) = n /\ {perm[i] : i \in 1..n} = 1..n
 Compose(n, x, perm) == [i \in 1..n |-> x[perm[i]]]
 Equivariant(n, perm, val, fl, valp, flp, eps) ==
    \A i \in 1..n : /\ Finite(flp, i) = Finite(fl, perm[i])
